@@ -653,6 +653,11 @@ func (env *SpecEnv) evalCall(n ECall) specVal {
 		return specVal{app(SInt, "lz8", env.Int(n.Args[0])), mathInt}
 	case "uvarint_len":
 		return specVal{app(SInt, "uvarint_len", env.Int(n.Args[0])), mathInt}
+	case "uvarint_byte":
+		return specVal{app(SInt, "uvarint_byte", env.Int(n.Args[0]), env.Int(n.Args[1])), mathInt}
+	case "uvarint_n", "uvarint_val":
+		s := env.toSeq(env.eval(n.Args[0]))
+		return specVal{app(SInt, n.Fn, s.Data, s.Off, s.Len), mathInt}
 	case "xor8":
 		l, r := env.Int(n.Args[0]), env.Int(n.Args[1])
 		return specVal{env.e.bitop(env.st, tokXOR, l, r, types.Typ[types.Uint8]), mathInt}
